@@ -41,3 +41,10 @@ claim(
     "The ingestion loop itself lives in aw-server, and whole-stream equality with heartbeat_reduce is an inductive argument that is not machine-checked here.",
     "embedded-SQL / query-chain descriptor comparison + pass-through (parameter forwarding) checks",
 )
+claim(
+    "C08",
+    "proof",
+    "heartbeat_merge is loop-free: all CFG paths are enumerated, the merging path's literal set is canonicalised to affine forms and must equal {data equal, last.ts <= hb.ts <= last.ts + last.dur + pulsetime, last.dur >= 0} with non-strict bounds, its only field write must be last.duration := max(last.dur, hb.ts - last.ts + hb.dur), every other path returns None and writes nothing; heartbeat_reduce must have the left-fold shape (seed, argument order, replace-last / append branches). For loop-free affine code, equality of canonical forms is equality of behaviour.",
+    "Trusted: datetime/timedelta arithmetic is exact integer microsecond arithmetic; dict equality. The normal-form consequences (no two consecutive outputs mergeable, idempotence, coverage) follow on paper from MERGE+FOLD and are not machine-checked.",
+    "exhaustive CFG path enumeration + affine canonicalisation of path literals and assignments (constant propagation), fold-shape matching",
+)
